@@ -140,6 +140,38 @@ fn apply<T: Elem, C: ArrayLength + PartialEq>(p: &mut Pair<T, C>, o: &Value) -> 
                 json!(p.b.rows())
             }
         }
+        "clone_from" => {
+            // Clone::clone_from: the destination keeps (and may reuse) its own storage
+            if tgt == "a" {
+                p.b.clone_from(&p.a);
+                json!(p.a.rows())
+            } else {
+                p.a.clone_from(&p.b);
+                json!(p.b.rows())
+            }
+        }
+        "iter_ends" => {
+            // ONE iterator driven from both ends
+            let pat: Vec<bool> = o["pat"].as_array().unwrap().iter().map(|x| x.as_str() == Some("f")).collect();
+            let mut y: Vec<Vec<i64>> = Vec::new();
+            let n;
+            if o["mutable"].as_bool() == Some(true) {
+                let mut it = m!().iter_mut();
+                for &f in &pat {
+                    let r = if f { it.next() } else { it.next_back() };
+                    y.push(r.map(|r| r.iter().map(|x| x.to_i()).collect()).unwrap_or_default());
+                }
+                n = it.len();
+            } else {
+                let mut it = m!().iter();
+                for &f in &pat {
+                    let r = if f { it.next() } else { it.next_back() };
+                    y.push(r.map(|r| r.iter().map(|x| x.to_i()).collect()).unwrap_or_default());
+                }
+                n = it.len();
+            }
+            json!({"y": y, "n": n})
+        }
         "iter_mut_bump" => {
             for row in m!().iter_mut() {
                 for x in row.iter_mut() {
@@ -180,7 +212,7 @@ fn random_op<C: ArrayLength + PartialEq>(rng: &mut impl Rng, na: usize, nb: usiz
         }
     };
     loop {
-        let k = rng.gen_range(0..17);
+        let k = rng.gen_range(0..21);
         return match k {
             0 => json!({"op":"new","tgt":tgt,"r":rrows(rng)}),
             1 => { let r = rrows(rng); json!({"op":"with_capacity","tgt":tgt,"r":r,"cap":r + rng.gen_range(0..5)}) }
@@ -210,7 +242,14 @@ fn random_op<C: ArrayLength + PartialEq>(rng: &mut impl Rng, na: usize, nb: usiz
                 if n == 0 { json!({"op":"iter_len","tgt":tgt}) }
                 else { json!({"op":"get","tgt":tgt,"i":rng.gen_range(1..=n),"j":rng.gen_range(1..=c)}) }
             }
-            _ => json!({"op":"eq","tgt":"a"}),
+            16 => json!({"op":"eq","tgt":"a"}),
+            17 | 18 => json!({"op":"clone_from","tgt":tgt}),
+            _ => {
+                let len = rng.gen_range(0..n + 4);
+                let pf = [0.5, 0.15, 0.85][rng.gen_range(0..3)];
+                let pat: Vec<&str> = (0..len).map(|_| if rng.gen_bool(pf) { "f" } else { "b" }).collect();
+                json!({"op":"iter_ends","tgt":tgt,"pat":pat,"mutable":rng.gen_bool(0.4)})
+            }
         };
     }
 }
@@ -225,16 +264,18 @@ fn record_one<T: Elem, C: ArrayLength + PartialEq>(rec: &mut Recorder, seed: u64
         let opn = o["op"].as_str().unwrap().to_string();
         let tgt = o["tgt"].as_str().unwrap().to_string();
         let pre_rows = if tgt == "a" { p.a.rows() } else { p.b.rows() };
-        let r = guarded(|| apply(&mut p, &o));
+        // reading the objects back is part of the observation: a panic there (e.g. a row count that no longer matches
+        // the storage) is reported like a panic of the call itself
+        let r = guarded(|| apply(&mut p, &o)).and_then(|obs| guarded(|| post(&p, &tgt)).map(|ps| (obs, ps)));
         match r {
-            Ok(obs) => {
+            Ok((obs, ps)) => {
                 if opn == "resize" {
                     let r = o["r"].as_u64().unwrap() as usize;
                     rec.class(if r > pre_rows { "resize_grow" } else if r < pre_rows { "resize_shrink" } else { "resize_same" });
                 }
                 rec.class(&format!("op_{}", opn));
                 rec.nontrivial(&(T::NAME, C::USIZE, o.to_string(), pre_rows));
-                rec.emit(json!({"ev":"dense","o":o,"obs":obs,"ret":"ok","post":post(&p, &tgt)}));
+                rec.emit(json!({"ev":"dense","o":o,"obs":obs,"ret":"ok","post":ps}));
             }
             Err(msg) => {
                 rec.class("panic");
@@ -278,14 +319,14 @@ fn replay_one<T: Elem, C: ArrayLength + PartialEq>(hist: &Value, mismatches: &mu
         if o["op"] == "iter_mut_bump" {
             o["k"] = step["k"].clone();
         }
-        let r = guarded(|| apply(&mut p, &o));
+        let r = guarded(|| apply(&mut p, &o)).and_then(|obs| guarded(|| {
+            (obs, json!({"a": rows_of(&p.a), "b": rows_of(&p.b)}), layout_of(if o["tgt"] == "b" { &p.b } else { &p.a }))
+        }));
         *steps += 1;
         let bad = match r {
             Err(m) => Some(json!({"panic": m})),
-            Ok(obs) => {
-                let got = json!({"a": rows_of(&p.a), "b": rows_of(&p.b)});
+            Ok((obs, got, l)) => {
                 let want = json!({"a": step["post"]["a"], "b": step["post"]["b"]});
-                let l = layout_of(if o["tgt"] == "b" { &p.b } else { &p.a });
                 let lay_ok = {
                     let stride = l["stride"].as_u64().unwrap();
                     let sz = l["sz"].as_u64().unwrap();
